@@ -42,7 +42,7 @@ ASSUMPTIONS = [
     'only the pydantic extractor is judged (the default extractor documents nothing, the docstring extractor documents the docstring)',
 ]
 SHARDS = {'quick': 16, 'thorough': 16}
-TIMEOUT = {'quick': 900, 'thorough': 3400}
+TIMEOUT = {'quick': 900, 'thorough': 3600}
 ANCHORS = [
     ('pjrpc/server/specs/extractors/pydantic.py', 'PydanticSchemaExtractor._build_params_model'),
     ('pjrpc/server/specs/openapi.py', 'OpenAPI._extract_request_schema'),
